@@ -61,3 +61,18 @@ package connlimit
 //@   requires cl != nil
 //@   modifies cl.next
 //@   ensures rebound: cl.next == h
+
+// ---- construction establishes the lock invariants ----------------------------------------------------------------------
+// Options configure (logger, verbosity, error handler); they are assumed not to touch the accounting state.
+//@ functype connlimit.Option
+//@   params l
+//@   modifies l.log, l.verbose, l.errHandler
+
+//@ func New
+//@   props C04 C14 C20
+//@   modifies nothing
+//@   ensures refuses_no_extractor: extract == nil ==> result1 != nil && result0 == nil
+//@   ensures fresh_limiter: result1 == nil ==> result0 != nil && fresh(result0) && fresh(result0.mutex) && result0.extract == extract && result0.maxConnections == maxConnections && result0.errHandler != nil
+//@   ensures no_connection_counted: result1 == nil ==> result0.connections != nil && fresh(result0.connections) && result0.totalConnections == 0 && (forall t string :: !in(t, result0.connections) && result0.connections[t] == 0 && result0.adm[t] == 0 && result0.held[t] == 0)
+//@   ghost_ensures forall t string :: result0.adm[t] == 0 && result0.held[t] == 0
+//@   loop 1 invariant cl != nil && fresh(cl) && fresh(cl.mutex) && cl.extract == extract && cl.maxConnections == maxConnections && cl.connections != nil && fresh(cl.connections) && cl.totalConnections == 0 && (forall t string :: !in(t, cl.connections)) && len(cl.connections) == 0
